@@ -385,8 +385,11 @@ class Frame:
                 v = self.ev(c[-1])
                 if nm:
                     self.env.fields[nm] = v
+        base_len = len(self.ip.cond_path)
+        self.block_depth = 0
         if f.body is not None:
             self.stmt(f.body)
+        del self.ip.cond_path[base_len:]      # conditions of early returns hold to the end of this frame only
         return phi(self.rets) if self.rets else UNK
 
     # ---- statements ------------------------------------------------------------------
@@ -394,10 +397,14 @@ class Frame:
         """Returns False if control cannot continue past n (return / throw on all paths)."""
         k = n.get('kind')
         if k == 'CompoundStmt':
-            for c in children(n):
-                if not self.stmt(c):
-                    return False
-            return True
+            self.block_depth = getattr(self, 'block_depth', 0) + 1
+            try:
+                for c in children(n):
+                    if not self.stmt(c):
+                        return False
+                return True
+            finally:
+                self.block_depth -= 1
         if k == 'DeclStmt':
             for d in children(n):
                 if d.get('kind') == 'VarDecl':
@@ -454,6 +461,11 @@ class Frame:
             self.ip.cond_path.pop()
             e2 = self.env
             self.env = self._merge(base, [(e1, r1), (e2, r2)], cond)
+            # `if (c) return;` directly in the function body: everything behind it runs under !c
+            if cond is not None and not r1 and r2 and not has_else and getattr(self, 'block_depth', 0) == 1 and \
+                    any(x.get('kind') == 'ReturnStmt' for x in walk(body[0])) and \
+                    not any(x.get('kind') == 'CXXThrowExpr' for x in walk(body[0])):
+                self.ip.cond_path.append(('op', '!', (cond,)))
             return r1 or r2
         if k in ('ForStmt', 'WhileStmt', 'DoStmt'):
             c = children(n)
